@@ -111,6 +111,9 @@ func (ts *TreeSpec) Materialize(root string) {
 		case 'l':
 			os.MkdirAll(filepath.Dir(p), 0o755)
 			os.Symlink(e.Data, p)
+		case 'p': // FIFO (entry-kind stream)
+			os.MkdirAll(filepath.Dir(p), 0o755)
+			c01MkFifo(p)
 		}
 	}
 }
